@@ -19,7 +19,9 @@ CfgSpace == [mgr : {"perception", "sensing"}, task : TaskSet, x : BOOLEAN, y : B
 \* the aux dimension only varies on otherwise plain configurations (keeps the product small)
 AuxOk(c) == (c.auxShape = "list" /\ c.aux = "min_point_numbers")
             \/ (c.task \in {"detection", "tracking"} /\ c.mgr = "perception" /\ c.x /\ c.y /\ ~c.dmax /\ ~c.dmin /\ c.minPts /\ ~c.unknownKey /\ c.nFrameIds = 1 /\ c.thr = "ok")
+\* partial kinds: one complete kind plus one list of the other (xy+dmax, ring+x), or a single list (x-only, dmax-only) - never accepted for 3-D
 FrameSpace == [kind : {"xy", "ring", "both", "none"}, lenDelta : -1..1, is2d : BOOLEAN]
+                \cup [kind : {"xy+dmax", "ring+x", "x-only", "dmax-only"}, lenDelta : {0}, is2d : {FALSE}]
 
 NoTree == <<"num", 0>>
 Init ==
